@@ -183,6 +183,7 @@ func checkC02(r *Run) {
 			ams := []*amSchema{genAM(rng, caps, "pk", profile)}
 			if i == 0 {
 				ams = append(ams, aimedAMs(caps)...)
+				ams = append(ams, c02Extras(caps)...)
 			}
 			for ai, am := range ams {
 				nRows := r.n(2, 4)
@@ -279,6 +280,10 @@ func checkC02(r *Run) {
 				continue
 			}
 			key := "go-compile/" + maskGoDiag(m[5])
+			if strings.Contains(m[5], "redeclared") || strings.Contains(m[5], "duplicate field") || strings.Contains(m[5], "other declaration of") || strings.Contains(m[5], "already declared") {
+				// name clashes have many unrelated causes: keep the source format apart
+				key += "/" + ru.format
+			}
 			if seen[key+id] {
 				continue
 			}
@@ -419,6 +424,26 @@ for sid in sorted(os.listdir(root)):
 					}
 				}
 				key := "java-compile/" + maskGoDiag(msg)
+				if (strings.Contains(msg, "expected") && !strings.Contains(msg, "enum constant expected")) || strings.Contains(msg, "illegal start") || strings.Contains(msg, "not a statement") {
+					// syntax errors say little by themselves: the offending source line names the construct
+					if li+1 < len(jlines) {
+						src := strings.Join(strings.Fields(jlines[li+1]), " ")
+						kw := ""
+						for _, tok := range regexp.MustCompile(`[A-Za-z_]+`).FindAllString(src, -1) {
+							for _, w := range []string{"true", "false", "null", "class", "import", "new", "default", "int", "public", "package", "static", "void"} {
+								// a keyword right after a type name / `this.` / as parameter name: used as an identifier
+								if tok == w && regexp.MustCompile(`(String|Long|Boolean|Double|Integer|Builder|\.|\() ?`+w+`\b|\b`+w+` ?(=|;|\(String|\(Long)`).MatchString(src) {
+									kw = w
+								}
+							}
+						}
+						if kw != "" {
+							key = "java-compile/keyword-used-as-identifier/" + kw
+						} else {
+							key += " @ " + truncate(src, 60)
+						}
+					}
+				}
 				if seen[key] {
 					continue
 				}
@@ -449,4 +474,36 @@ func cogDumpHelper() []byte {
 		return []byte("package cog\n")
 	}
 	return []byte("package cog\n\nimport (\n\t\"fmt\"\n\t\"reflect\"\n\t\"strings\"\n)\n\n" + src[i:])
+}
+
+// c02Extras: shapes aimed at the text generators only (no documents are needed in C02).
+func c02Extras(caps amCaps) []*amSchema {
+	intW := pickWidthDefault(caps.IntWidths, "int64")
+	mk := func(objs ...*amObject) *amSchema {
+		return &amSchema{Pkg: "pk", Objs: objs, Tags: map[string]int{"aimed": 1}}
+	}
+	var out []*amSchema
+	// a union one of whose branches is a reference to another union sharing a branch type with it
+	out = append(out, mk(
+		&amObject{"NumOrStr", un(tyw("int", intW), ty("string"))},
+		&amObject{"BoolOrStr", un(ty("bool"), ty("string"))},
+		&amObject{"Holder", st(
+			fld("value", true, un(rf("NumOrStr"), ty("string"), ty("bool"))),
+			fld("other", false, un(rf("NumOrStr"), rf("BoolOrStr"))),
+			fld("plain", false, rf("NumOrStr")),
+		)},
+	))
+	// member names that are keywords, or become keywords once sanitised, in one of the target languages
+	var fields []*amField
+	for i, n := range []string{"_from", "_class", "$in", "type", "func", "range", "_import", "global", "lambda", "public", "int", "default", "new", "function", "None", "True", "len", "list"} {
+		t := ty("string")
+		if i%3 == 1 {
+			t = tyw("int", intW)
+		}
+		fields = append(fields, fld(n, i%2 == 0, t))
+	}
+	out = append(out, mk(&amObject{"Idents", st(fields...)}))
+	// names that need sanitising before they can be identifiers at all
+	out = append(out, mk(&amObject{"Odd", st(fld("a-b", true, ty("string")), fld("9lives", false, ty("string")), fld("with space", false, ty("bool")), fld("dotted.name", false, ty("string")))}))
+	return out
 }
